@@ -13,6 +13,7 @@ def run(F, G, tier, seed):
     routing.run_nodrop(chk, F, G)
     routing.run_taguse(chk, F)
     routing.run_wholetext(chk, F)
+    routing.run_loopend(chk, F)
     instances.run(chk, F, rid="R-POSBIND")
     return chk.finish(
         "Decides the routing clauses of C04: each is a def-use chain through named interface points (label kind table, "
